@@ -1091,8 +1091,10 @@ class ConvertInstance:
         ctx.visit(search_unneeded_bool_casts)
 
         def replace_temporaries(obj, access):
-            if obj in replacement_map:
-                return replacement_map[obj]
+            # casts can be chained, follow the replacements
+            # up to the temporary that is still assigned
+            while obj in replacement_map:
+                obj = replacement_map[obj]
 
             return obj
 
